@@ -227,3 +227,17 @@ Theorem thread_start_no_pool_no_fault :
     imap_start pool_size use_result_objects items arrival split fail_at
     = imap pool_size use_result_objects items arrival split.
 Proof. exact imap_start_no_pool. Qed.
+
+(* ---- the call terminates: the blocking get of the first drain phase *)
+
+(* Whenever _fetch_results' loop condition lets the consumer call result_queue.get(), a result is in the queue
+   or a task is still untaken or running, so the get returns (given a live worker); tasks whose result was put
+   but whose task_done() is still outstanding do not keep the consumer in the loop. *)
+Theorem fetch_results_get_returns :
+  forall s, fetch_cond false s = true -> get_can_return s = true.
+Proof. exact fetch_get_returns. Qed.
+
+(* counting unfinished tasks instead would block for ever after the last result *)
+Theorem fetch_results_unfinished_tasks_refuted :
+  exists s, fetch_cond true s = true /\ get_can_return s = false.
+Proof. exact fetch_unfinished_blocks. Qed.
